@@ -1,12 +1,11 @@
 (* C12 - Delimited data round-trips through write and read for every accepted format. Property theorems only.
-   What is proved here is the cutplace-owned half: the configurations that DataFormat.validate lets through
-   (rules regenerated from the source on every run) are exactly the kind the csv module can round-trip, and
-   writing never fails for them.  The round trip through the csv model itself (csv_read d (w_rows d t) = t) is
-   established by the correspondence run and the round-trip oracle on the implementation, not yet by a theorem
-   (see DESIGN.md, C12). *)
+   Model/Delimited.v is an executable model of the parts of CPython 3.12's _csv module cutplace relies on (writer
+   join_append_data, strict reader state machine fed by universal newline splitting), validated against the real
+   module by the correspondence on every run; the consistency rules of DataFormat.validate are regenerated from the
+   source. *)
 From Coq Require Import String.
 From CP Require Import Model.Base Generated.Consts Generated.FormatTable Model.Delimited Model.DataFormat
-  Spec.DelimitedSpec Proofs.DelimitedProofs.
+  Spec.DelimitedSpec Proofs.DelimitedProofs Proofs.CsvRoundTrip.
 
 Theorem accepted_formats_wf : forall dl q e ld ds ts qa,
   In [q] VALID_QUOTE_CHARACTERS -> In [e] VALID_ESCAPE_CHARACTERS ->
@@ -16,6 +15,20 @@ Proof. exact accepted_formats_wf_lemma. Qed.
 
 Theorem writing_never_fails : forall d, wf_dialect d -> forall rows, w_rows d rows <> None.
 Proof. exact w_rows_total. Qed.
+
+(* the round trip, for every dialect whose special characters are pairwise distinct and no line breaks and for EVERY
+   table - any number of rows, ragged rows, rows without cells, empty cells, cells containing the delimiter, the quote
+   character, the escape character, CR, LF, CR LF in any combination: reading what was written gives the table back,
+   complete and without an error *)
+Theorem csv_write_read_roundtrip : forall d rows out, wf_dialect d -> w_rows d rows = Some out -> csv_read d out = (rows, true).
+Proof. exact csv_roundtrip. Qed.
+
+(* ... hence for every delimited format the CID loader accepts *)
+Theorem accepted_format_roundtrips : forall dl q e ld ds ts qa rows,
+  In [q] VALID_QUOTE_CHARACTERS -> In [e] VALID_ESCAPE_CHARACTERS ->
+  validate_ok FORMAT_DELIMITED (delimited_attrs dl q e ld ds ts) = true ->
+  exists out, w_rows (as_delimited_keywords dl q e qa) rows = Some out /\ csv_read (as_delimited_keywords dl q e qa) out = (rows, true).
+Proof. exact accepted_format_roundtrips_lemma. Qed.
 
 (* a table with the configured delimiter, quote, escape character, blanks, CR and LF in its cells round-trips
    in the model under an accepted format (delimiter ';', quote ', escape \) *)
